@@ -38,6 +38,7 @@ ERR_CLASSES = [
     (r"invalid token max supply", "token_max_below_initial"),
     (r"rewardPerShare must be positive", "farm_rps_zero"),
     (r"invalid request context state", "service_context_not_paused"),
+    (r"asset not found", "htlc_asset_not_found"),
 ]
 
 EVERY = T(6, 2)
